@@ -64,8 +64,8 @@ func VerifC20Resize() {
 	zzverif.Reach("end")
 }
 
-// VerifC20HalfBlock: a 1x2 pixel image whose two pixels have free colour channels and an
-// alpha that is either fully opaque or below the transparency threshold: the cell carries
+// VerifC20HalfBlock: a 1x2 pixel image whose two pixels have free colour channels and a
+// free alpha (all 256 levels each): the cell carries
 // exactly the source colours of the opaque pixels and the default colour for transparent
 // ones, with the block glyph the combination requires.
 func VerifC20HalfBlock() {
@@ -74,8 +74,10 @@ func VerifC20HalfBlock() {
 	for i := range px {
 		img.Pix[i] = px[i]
 	}
+	// every alpha level: below the threshold (50) a pixel is transparent; colours are compared
+	// exactly only for fully opaque pixels (un-premultiplying a partial alpha rounds)
 	topOpaque, botOpaque := px[3] == 255, px[7] == 255
-	zzverif.Assume((topOpaque || px[3] < 50) && (botOpaque || px[7] < 50))
+	topClear, botClear := px[3] < 50, px[7] < 50
 	vx := verifBareVaxis(2, 2)
 	hb := vx.NewHalfBlockImage(img)
 	hb.Resize(1, 1)
@@ -84,14 +86,18 @@ func VerifC20HalfBlock() {
 	c := hb.cells[0]
 	top, bot := RGBColor(px[0], px[1], px[2]), RGBColor(px[4], px[5], px[6])
 	switch {
-	case topOpaque && botOpaque:
-		zzverif.Assert(c.Grapheme == "▀" && c.Foreground == top && c.Background == bot, "both-pixels-reproduced-exactly")
-	case topOpaque:
-		zzverif.Assert(c.Grapheme == "▀" && c.Foreground == top && c.Background == 0, "transparent-bottom-is-default")
-	case botOpaque:
-		zzverif.Assert(c.Grapheme == "▄" && c.Foreground == bot && c.Background == 0, "transparent-top-is-default")
-	default:
+	case topClear && botClear:
 		zzverif.Assert(c.Grapheme == " " && c.Foreground == 0 && c.Background == 0, "both-transparent-is-blank-default")
+	case topClear:
+		zzverif.Assert(c.Grapheme == "▄" && c.Background == 0 && c.Foreground&rgb != 0, "transparent-top-is-default")
+		zzverif.Assert(!botOpaque || c.Foreground == bot, "opaque-bottom-reproduced-exactly")
+	case botClear:
+		zzverif.Assert(c.Grapheme == "▀" && c.Background == 0 && c.Foreground&rgb != 0, "transparent-bottom-is-default")
+		zzverif.Assert(!topOpaque || c.Foreground == top, "opaque-top-reproduced-exactly")
+	default:
+		zzverif.Assert(c.Grapheme == "▀" && c.Foreground&rgb != 0 && c.Background&rgb != 0, "both-pixels-shown")
+		zzverif.Assert(!topOpaque || c.Foreground == top, "opaque-top-reproduced-exactly")
+		zzverif.Assert(!botOpaque || c.Background == bot, "opaque-bottom-reproduced-exactly")
 	}
 	// drawing touches only cells inside the target window
 	win := vx.Window().New(1, 1, 1, 1)
